@@ -401,7 +401,8 @@ func (c *specCtx) index(b, i Val) Val {
 		switch u := b.Ty.Underlying().(type) {
 		case *types.Slice:
 			arr, _, _ := vc.sliceParts(b)
-			if eb, ok := u.Elem().Underlying().(*types.Basic); ok && eb.Info()&types.IsInteger != 0 && !strings.Contains(b.S, "_q") {
+			_, elemIsStruct := u.Elem().Underlying().(*types.Struct)
+			if eb, ok := u.Elem().Underlying().(*types.Basic); (elemIsStruct || (ok && eb.Info()&types.IsInteger != 0)) && !strings.Contains(b.S, "_q") {
 				// type invariant of the slice value: elements are in the element type's range
 				if f := vc.eng.sorts.rangeFact(b.S, b.Ty, 0); f != "" && !vc.rangeAsserted[f] {
 					vc.rangeAsserted[f] = true
